@@ -276,20 +276,27 @@ pub fn run(report: &Report) -> i32 {
     run_prop(
         report,
         "c12a",
-        "proptest-generated bulk/bursty transfers x all controllers incl. a scripted adversarial window (>= 2 MTU) x loss/reorder/dup/ECN; oracles: congestion gate around every poll_transmit with the documented exemptions, probe budget, in-flight balance at forced quiescence, no loss declared on a clean path; non-trivial = sender was window-limited AND a packet was declared lost",
+        "proptest-generated bulk/bursty transfers x all controllers incl. a scripted adversarial window (>= 2 MTU) x loss/reorder/dup/ECN, applications calling path_changed(); oracles: congestion gate around every poll_transmit with the documented exemptions, probe budget, in-flight balance at forced quiescence, no loss declared on a clean path; non-trivial = sender was window-limited AND a packet was declared lost",
         || {
             use proptest::prelude::*;
-            (arb_xfer(gen()), 0u8..3).prop_map(|(mut x, k)| {
+            (arb_xfer(gen()), 0u8..3, prop::collection::vec((any::<bool>(), 20_000u32..3_000_000), 0..3), prop::bool::weighted(0.3)).prop_map(|(mut x, k, pcs, with_pc)| {
                 if k == 0 {
                     x.net.faults_c2s.clear();
                     x.net.faults_s2c.clear();
                     x.net.mtu_steps.clear();
                     x.net.drv.late_us = vec![0];
+                } else if with_pc {
+                    // an application that restarts RTT, congestion control and MTU discovery in mid-transfer
+                    for (at_client, at_us) in pcs {
+                        let side = if at_client { &mut x.client } else { &mut x.server };
+                        side.ops.push(TimedOp { at_us, op: AuxOp::PathChanged });
+                        side.ops.sort_by_key(|o| o.at_us);
+                    }
                 }
                 x
             })
         },
-        report.cases(6000, 300_000),
+        report.cases(30_000, 900_000),
         case,
     );
     super::c12b::run_sub(report);
